@@ -182,7 +182,8 @@ FullControlT<ArgsT<TG_, TSL_, TRL_, NCC_, NOC_, NOU_, TRO_ HFSM2_IF_SERIALIZATIO
 	HFSM2_ASSERT(subStatus);
 
 	if (subStatus.result == TaskStatus::FAILURE) {
-		_taskStatus.result = TaskStatus::FAILURE;
+		// the result that travels on is whatever planFailed() - the default calls fail() - leaves behind
+		_taskStatus.result = TaskStatus::NONE;
 		HFSM2_LOG_PLAN_STATUS(context(), _regionStateId, StatusEvent::FAILED);
 
 		headState.wrapPlanFailed(*this);
@@ -218,7 +219,8 @@ FullControlT<ArgsT<TG_, TSL_, TRL_, NCC_, NOC_, NOU_, TRO_ HFSM2_IF_SERIALIZATIO
 
 			return TaskStatus{};
 		} else {
-			_taskStatus.result = TaskStatus::SUCCESS;
+			// the result that travels on is whatever planSucceeded() - the default calls succeed() - leaves behind
+			_taskStatus.result = TaskStatus::NONE;
 			HFSM2_LOG_PLAN_STATUS(context(), _regionStateId, StatusEvent::SUCCEEDED);
 
 			plan().clearTasks();
@@ -373,7 +375,8 @@ FullControlT<ArgsT<TG_, TSL_, TRL_, NCC_, NOC_, NOU_, TRO_ HFSM2_IF_SERIALIZATIO
 	HFSM2_ASSERT(subStatus);
 
 	if (subStatus.result == TaskStatus::FAILURE) {
-		_taskStatus.result = TaskStatus::FAILURE;
+		// the result that travels on is whatever planFailed() - the default calls fail() - leaves behind
+		_taskStatus.result = TaskStatus::NONE;
 		HFSM2_LOG_PLAN_STATUS(context(), _regionStateId, StatusEvent::FAILED);
 
 		headState.wrapPlanFailed(*this);
@@ -406,7 +409,8 @@ FullControlT<ArgsT<TG_, TSL_, TRL_, NCC_, NOC_, NOU_, TRO_ HFSM2_IF_SERIALIZATIO
 
 			return TaskStatus{};
 		} else {
-			_taskStatus.result = TaskStatus::SUCCESS;
+			// the result that travels on is whatever planSucceeded() - the default calls succeed() - leaves behind
+			_taskStatus.result = TaskStatus::NONE;
 			HFSM2_LOG_PLAN_STATUS(context(), _regionStateId, StatusEvent::SUCCEEDED);
 
 			plan().clearTasks();
